@@ -7,12 +7,14 @@
 package main
 
 import (
+	"encoding/json"
 	"flag"
 	"fmt"
 	"os"
 	"os/exec"
 	"path/filepath"
 	"strconv"
+	"strings"
 
 	"verif/sim/core"
 	"verif/sim/runner"
@@ -121,8 +123,33 @@ func main() {
 		fs.StringVar(&o.KnownPath, "known", filepath.Join(root(), "known_findings.json"), "")
 		fs.BoolVar(&o.HashOnly, "hash", false, "")
 		fs.IntVar(&o.Shard, "shard", 0, "")
+		fs.StringVar(&o.Journal, "journal", "", "")
 		fs.Parse(os.Args[2:])
 		os.Exit(runner.Worker(o))
+	case "exec-tape":
+		// internal: execute a tape (JSON array of values) once; exit 0 = no
+		// violation, 1 = violation, anything else = the process died
+		fs := flag.NewFlagSet("exec-tape", flag.ExitOnError)
+		prop := fs.String("prop", "", "")
+		fs.Parse(os.Args[2:])
+		eng, ok := core.Get(*prop)
+		if !ok || fs.NArg() != 1 {
+			os.Exit(4)
+		}
+		b, err := os.ReadFile(fs.Arg(0))
+		if err != nil {
+			os.Exit(4)
+		}
+		var vals []uint64
+		if json.Unmarshal(b, &vals) != nil {
+			os.Exit(4)
+		}
+		res, tp := runner.ReplayVals(eng, vals, false)
+		fmt.Printf("USED %d\n", tp.Used())
+		if res.Viol != nil {
+			os.Exit(1)
+		}
+		os.Exit(0)
 	case "replay":
 		fs := flag.NewFlagSet("replay", flag.ExitOnError)
 		quiet := fs.Bool("quiet", false, "do not print the trace")
@@ -172,7 +199,7 @@ func replay(exe, path string, quiet, child bool) int {
 		return 2
 	}
 	want := rf.Violation.Fingerprint()
-	if rf.Tape == nil && !child {
+	if (rf.Tape == nil || strings.HasPrefix(rf.Violation.Class, "process-")) && !child {
 		// seed-only (process death): run in a child so that the death is observed
 		cmd := exec.Command(exe, "replay", "-quiet", "-child", path)
 		if mb := eng.Info().MemLimitMB; mb > 0 {
